@@ -1204,6 +1204,18 @@ func (m *Machine) typeAssert(fr *frame, in *ssa.TypeAssert) Val {
 	case Nil:
 		return fail()
 	case Iface:
+		if b, isB := x.T.(*types.Basic); x.T == nil || isB && b.Kind() == types.Invalid {
+			// opaque dynamic type: both outcomes
+			name := Show(x.V)
+			key := "assert(" + name + "," + types.TypeString(in.AssertedType, shortQual) + ")"
+			if m.Atom(key) {
+				if types.IsInterface(in.AssertedType) {
+					return okv(x)
+				}
+				return okv(symOfType(name+".("+types.TypeString(in.AssertedType, shortQual)+")", in.AssertedType))
+			}
+			return fail()
+		}
 		if types.IsInterface(in.AssertedType) {
 			it := in.AssertedType.Underlying().(*types.Interface)
 			if types.Implements(x.T, it) {
